@@ -48,6 +48,7 @@ InsertAt(seq, pos, x) ==   \* Python list.insert(pos, x) with 0-based pos (past 
 \* sequences of [k, mode] / [k, idkey]; cfg.lvl = 0 at the document root
 RulesOf(cfg) == IF "rules" \in DOMAIN cfg THEN cfg.rules ELSE <<>>
 KeysOf(cfg) == IF "keys" \in DOMAIN cfg THEN cfg.keys ELSE <<>>
+RootRuleOf(cfg) == IF "rootrule" \in DOMAIN cfg THEN cfg.rootrule ELSE ""
 LvlOf(cfg) == IF "lvl" \in DOMAIN cfg THEN cfg.lvl ELSE 0
 Deeper(cfg) == IF "lvl" \in DOMAIN cfg THEN [cfg EXCEPT !.lvl = 1] ELSE cfg
 RuleFor(cfg, k) == LET R == RulesOf(cfg) hit == {j \in 1..Len(R) : R[j].k = k} IN
@@ -192,7 +193,10 @@ MergeRoot(l, r, cfg) ==
   ELSE IF r.k = "map" THEN
     (IF l.k = "seq" THEN MergeLists(l, [NewCont("seq") EXCEPT !.kids = <<r>>], cfg)
      ELSE IF l.k = "set" THEN MErr
-     ELSE IF l.k = "map" THEN MergeVal(l, r, cfg)
+     ELSE IF l.k = "map" THEN
+        \* a rule addressed to the merge point itself governs the two root Hashes (merger.py:694-709); nothing beneath them
+        (LET rr == RootRuleOf(cfg) IN
+         IF rr = "left" THEN MOK(l) ELSE IF rr = "right" THEN MOK(r) ELSE IF rr = "deep" THEN MergeMaps(l, r, cfg) ELSE MergeVal(l, r, cfg))
      ELSE MErr)
   ELSE IF r.k = "seq" THEN
     (IF l.k = "seq" THEN MergeLists(l, r, cfg)
